@@ -62,7 +62,9 @@ const (
 	AddrTaken
 )
 
-func (k AccessKind) String() string { return [...]string{"read", "write", "map-write", "addr-taken"}[k] }
+func (k AccessKind) String() string {
+	return [...]string{"read", "write", "map-write", "addr-taken"}[k]
+}
 
 // FieldAccess is one access to a struct field.
 type FieldAccess struct {
